@@ -24,7 +24,7 @@ func (p *c11) Exhaustive() bool { return true }
 
 var (
 	c11Forms = []string{"_self.m", "alias.m", "from-import m", "from-import m as n", "from-import m as <name of a registered function>"}
-	c11Uses  = []string{"print", "set", "concat", "argument-of-call", "in-loop", "in-capture", "twice-in-a-row", "in-loop-then-after", "import-computed-in-loop"}
+	c11Uses  = []string{"print", "set", "concat", "argument-of-call", "in-loop", "in-capture", "twice-in-a-row", "in-loop-then-after", "import-computed-in-loop", "in-embedded-and-included-template"}
 )
 
 func (p *c11) Init(tier string, seed int64) {
@@ -196,6 +196,19 @@ func (p *c11) buildEnum(i int) (*Program, string) {
 		return &Program{Templates: ts, Main: "main", Ctx: map[string]interface{}{}},
 			fmt.Sprintf("params=%d/args=%d/%s/%s", nparams, nargs, c11Forms[form], c11Uses[use])
 	}
+	if use == 9 {
+		// definition (or import) and call both live in a template that is entered through embed and include
+		var inner []gen.Node
+		if form == 0 {
+			inner = append(inner, m)
+		}
+		inner = append(inner, setup...)
+		inner = append(inner, c11use(0, call)...)
+		ts["emb"] = tpl("emb", inner...)
+		ts["main"] = tpl("main", tx("E("), &gen.NEmbed{Tpl: str("emb")}, tx(")I("), &gen.NInclude{Tpl: str("emb")}, tx(")"))
+		return &Program{Templates: ts, Main: "main", Ctx: map[string]interface{}{}},
+			fmt.Sprintf("params=%d/args=%d/%s/%s", nparams, nargs, c11Forms[form], c11Uses[use])
+	}
 	if use == 8 {
 		use = 6
 	}
@@ -358,7 +371,7 @@ func (p *c11) Run(i int) (res fw.Result) {
 }
 
 func (p *c11) Rule() string {
-	return "exhaustive: parameters 0..4 x arguments 0..6 x call form {_self.m, alias.m, from-import m, from-import m as n, from-import m under the name of a registered function} x use of the result {printed, assigned and printed twice, concatenated, passed to a recording function and a filter, inside a loop, inside a set-capture and a filter section, twice in a row and concatenated with itself, in a loop and again after it, through ONE import statement executed three times with a computed library name} (1575 cases, each compared with the reference model AND with the _self form of the same coordinates); unknown macros (call on an import alias, with and without arguments, inside a loop; from-import of an unknown name, with alias; import of a missing template) must fail; terminating recursion (linear, two inner calls, mutual; depth 0..4; defined in the template or in a library that imports itself) where every level prints its parameters again after the inner call returned; random: 2..5 macros split between the template and a library, bodies calling earlier macros of the same home (acyclic), 1..4 calls in random forms and uses. Every macro body prints each parameter and calls a recording function, so binding by position, null for missing, dropping of surplus arguments and Context.Name() (defining template) are all visible. Non-trivial: all enumerated coordinates are distinct by construction; random cases by their call list."
+	return "exhaustive: parameters 0..4 x arguments 0..6 x call form {_self.m, alias.m, from-import m, from-import m as n, from-import m under the name of a registered function} x use of the result {printed, assigned and printed twice, concatenated, passed to a recording function and a filter, inside a loop, inside a set-capture and a filter section, twice in a row and concatenated with itself, in a loop and again after it, through ONE import statement executed three times with a computed library name, defined / imported and called inside a template entered through embed and include} (1750 cases, each compared with the reference model AND with the _self form of the same coordinates); unknown macros (call on an import alias, with and without arguments, inside a loop; from-import of an unknown name, with alias; import of a missing template) must fail; terminating recursion (linear, two inner calls, mutual; depth 0..4; defined in the template or in a library that imports itself) where every level prints its parameters again after the inner call returned; random: 2..5 macros split between the template and a library, bodies calling earlier macros of the same home (acyclic), 1..4 calls in random forms and uses. Every macro body prints each parameter and calls a recording function, so binding by position, null for missing, dropping of surplus arguments and Context.Name() (defining template) are all visible. Non-trivial: all enumerated coordinates are distinct by construction; random cases by their call list."
 }
 
 func (p *c11) Assumptions() []string {
